@@ -18,6 +18,9 @@ type Scenario struct {
 	Cfg     RunConfig  `json:"cfg"`
 	Fates   []TaskFate `json:"fates,omitempty"` // per (pipeline, task): forced outcome
 	Store   *StoreScenario `json:"store_scenario,omitempty"` // engine B1 (C09) instead of engine A
+	Reload  *ReloadScenario `json:"reload_scenario,omitempty"` // reload-loop engine (C17) instead of engine A
+	ProcEnv map[string]string    `json:"process_env,omitempty"` // engine C (C18): environment of the prunner process
+	Outputs map[string][]OutSpec `json:"outputs,omitempty"`     // engine C (C19): pipeline/task -> what each command writes
 }
 
 type DefSet struct {
@@ -105,6 +108,7 @@ type RunConfig struct {
 	Readers   bool   `json:"readers_inside,omitempty"`
 	PollMs    int    `json:"shutdown_poll_ms,omitempty"`
 	Profiling bool   `json:"profiling,omitempty"` // HTTP server built with the profiling routes enabled
+	RealRunner bool  `json:"real_runner,omitempty"` // engine C: the real taskctl.TaskRunner and real child processes
 	NoOracle  bool   `json:"no_oracle,omitempty"` // race configuration: the driver makes no calls into the runner
 	PersistCheck bool `json:"persist_check,omitempty"` // settle actions wait three persist pauses and compare store and API
 }
@@ -198,7 +202,7 @@ func (g gen) p(permille int) bool {
 }
 func (g gen) oneOf(xs ...int) int { return xs[g.r.IntN(len(xs))] }
 
-var taskNames = []string{"a", "b", "c", "d", "e", "f"}
+var taskNames = []string{"a", "b", "c", "d", "e", "f", "g", "h"}
 
 // graph generates a task graph with n tasks. kind: 0 random DAG, 1 chain, 2 diamond-ish, 3 independent.
 func (g gen) graph(n int, cyclePermille int) []TaskS {
@@ -207,6 +211,9 @@ func (g gen) graph(n int, cyclePermille int) []TaskS {
 		ts[i].Name = taskNames[i]
 	}
 	kind := g.n(4)
+	if n >= 5 && g.p(500) {
+		kind = 0 // larger graphs: mostly irregular ones (joins over paths of different depth)
+	}
 	for i := 1; i < n; i++ {
 		switch kind {
 		case 0:
@@ -301,6 +308,9 @@ func (g gen) pipeline(name string, o genOpts) PipeS {
 	p.Replace = g.p(o.replacePermille)
 	p.ContinueOnFail = g.p(o.contPermille)
 	nt := 1 + g.n(o.maxTasks)
+	if o.maxTasks >= 6 && g.p(350) {
+		nt = 5 + g.n(2)
+	}
 	p.Tasks = g.graph(nt, o.cyclePermille)
 	for i := range p.Tasks {
 		if g.p(o.allowFailPermille) {
@@ -351,6 +361,19 @@ func Generate(seed uint64, profile string, faults bool) *Scenario {
 	if profile == "C09" {
 		return generateStore(seed)
 	}
+	if profile == "C17" {
+		return generateReload(seed)
+	}
+	if profile == "C18" || profile == "C19" {
+		g := gen{rand.New(rand.NewPCG(seed, 0x5245414c))}
+		sc := &Scenario{Profile: profile}
+		if profile == "C18" {
+			generateEnvScenario(g, sc)
+		} else {
+			generateOutputScenario(g, sc)
+		}
+		return sc
+	}
 	g := gen{rand.New(rand.NewPCG(seed, 0x5343454e4152494f))}
 	sc := &Scenario{Profile: profile}
 	o := defaultOpts()
@@ -360,6 +383,7 @@ func Generate(seed uint64, profile string, faults bool) *Scenario {
 	badVar := 0
 	rich := false
 	shutdowns := 0
+	gracefulOnly := false
 	mix := map[string]int{"schedule": 10, "cancel": 3, "read": 1, "list": 1}
 
 	switch profile {
@@ -386,6 +410,11 @@ func Generate(seed uint64, profile string, faults bool) *Scenario {
 		o.cyclePermille = 0
 		mix = map[string]int{"schedule": 8, "cancel": 8, "read": 1}
 		cfg.PExit0 = 150
+		if g.p(250) {
+			shutdowns = 1 // cancels that land while a graceful shutdown waits for running jobs
+			gracefulOnly = true
+			cfg.PollMs = 200
+		}
 	case "C05":
 		o.maxTasks = 2
 		o.cyclePermille = 0
@@ -508,6 +537,9 @@ func Generate(seed uint64, profile string, faults bool) *Scenario {
 		o.cyclePermille = 0
 	}
 
+	if profile == "C02" && g.p(250) {
+		return graphSweep(g, profile)
+	}
 	np := 1 + g.n(o.maxPipes)
 	var ds DefSet
 	for i := 0; i < np; i++ {
@@ -578,7 +610,7 @@ func Generate(seed uint64, profile string, faults bool) *Scenario {
 	for i := 0; i < shutdowns; i++ {
 		c := g.n(len(sc.Clients))
 		pos := g.n(len(sc.Clients[c]) + 1)
-		op := Op{Kind: "shutdown", Forced: g.p(500), AfterMs: g.oneOf(0, 1, 50, 200, 1000, 5000), Signal: g.p(500)}
+		op := Op{Kind: "shutdown", Forced: g.p(500) && !gracefulOnly, AfterMs: g.oneOf(0, 1, 50, 200, 1000, 5000), Signal: g.p(500)}
 		prog := append([]Op(nil), sc.Clients[c][:pos]...)
 		prog = append(prog, op)
 		sc.Clients[c] = append(prog, sc.Clients[c][pos:]...)
@@ -793,4 +825,35 @@ func genAuthOp(g gen, op *Op, scheduled int) {
 	case "wrong_secret", "alg_none", "hs384", "hs512", "rs256_header":
 		op.ExpS = 10_000_000
 	}
+}
+
+
+// graphSweep: a run that is about the shape of task graphs rather than about interleavings: a dozen
+// pipelines with irregular 6-8 task DAGs under shuffled names, each scheduled once and run to completion.
+func graphSweep(g gen, profile string) *Scenario {
+	sc := &Scenario{Profile: profile}
+	var ds DefSet
+	var prog []Op
+	for i := 0; i < 12; i++ {
+		n := 6 + g.n(3)
+		ts := make([]TaskS, n)
+		perm := g.r.Perm(n)
+		pe := 300 + 100*g.n(3)
+		for k := 0; k < n; k++ {
+			ts[k].Name = taskNames[perm[k]]
+			for j := 0; j < k; j++ {
+				if g.p(pe) {
+					ts[k].DependsOn = append(ts[k].DependsOn, taskNames[perm[j]])
+				}
+			}
+		}
+		sort.Slice(ts, func(a, b int) bool { return ts[a].Name < ts[b].Name })
+		name := fmt.Sprintf("g%02d", i)
+		ds.Pipelines = append(ds.Pipelines, PipeS{Name: name, Concurrency: 1, Tasks: ts})
+		prog = append(prog, Op{Kind: "schedule", Pipeline: name, User: "sweep"})
+	}
+	sc.Defs = []DefSet{ds}
+	sc.Clients = [][]Op{prog}
+	sc.Cfg = RunConfig{Store: "none", MaxSteps: 3000, WParked: 6, WClient: 2, WAdvance: 1}
+	return sc
 }
